@@ -12,13 +12,17 @@ import re
 from . import common as C
 
 THEOREMS = ["subslice_spec", "subslice_wf", "copy_spec", "copyArray_memmove", "append_spec",
-            "append_fresh_elems_counterexample", "append_fresh_elems_partial"]
-THEOREMS_HEAP = ["clone_deep", "no_sharing", "value_semantics_partial", "value_semantics_counterexample", "cloneAt_newLocation",
-                 "value_semantics_cloneAt"]
+            "append_fresh_elems_counterexample", "append_fresh_elems_partial",
+            "clone_deep", "copy_in_place", "no_sharing", "value_semantics_partial", "cloneAt_newLocation",
+            "value_semantics_cloneAt", "no_sharing_cloneAt", "value_semantics_counterexample",
+            "value_semantics_counterexample_range", "value_semantics_counterexample_boundCall",
+            "value_semantics_counterexample_ifaceCall"]
 
 SIG_GROW = "C07 append-realloc elem=struct|array element-objects-shared-with-old-array"
 SIG_BOX = "C07 box-into-interface array|struct value not-cloned"
 SIG_RANGE = "C07 range-over-array-value operand-not-copied"
+SIG_BOUND = "C07 method-value invocation value-receiver not-copied-per-call"
+SIG_IFACE = "C07 interface-dispatch value-receiver not-copied"
 
 
 # ------------------------------------------------------------------------------------------
@@ -373,7 +377,18 @@ class Probe:
 
 def gen_probe(pid, rng, types, forced=None):
     pr = Probe(pid, rng, types)
-    T = types.gen(rng.choice([1, 2, 3, 4]), spine=True)
+    ctx = forced or rng.choice(CONTEXTS)
+    for _ in range(12):
+        T = types.gen(rng.choice([1, 2, 3, 4]), spine=True)
+        sps0 = spine_paths(T)
+        if ctx in ("rangeValue", "rangeOperand"):
+            if any(q and subtype(T, q[:-1])["k"] == "a" and (ctx == "rangeValue" or subtype(T, q[:-1])["n"] >= 2) for q in sps0):
+                break
+        elif ctx in ("recvValue", "methodValue", "ifaceCall"):
+            if any(subtype(T, q)["named"] for q in sps0):
+                break
+        else:
+            break
     # where x lives: local, package level, or accessed through a pointer
     place = rng.choice(["local", "local", "global", "ptr"])
     if place == "global":
@@ -389,7 +404,6 @@ def gen_probe(pid, rng, types, forced=None):
     pr.fill(T, x, 0)
     xval = "(*px)" if place == "ptr" else x
     sps = spine_paths(T)
-    ctx = forced or rng.choice(CONTEXTS)
     # source sub-value
     p = rng.choice(sps)
     if ctx in ("rangeValue", "rangeOperand"):
@@ -399,7 +413,7 @@ def gen_probe(pid, rng, types, forced=None):
         else:
             p = rng.choice(cands)
     U = subtype(T, p)
-    if ctx in ("recvValue", "methodValue") and not U["named"]:
+    if ctx in ("recvValue", "methodValue", "ifaceCall") and not U["named"]:
         named = [q for q in sps if subtype(T, q)["named"]]
         p = rng.choice(named) if named else []
         U = subtype(T, p)
@@ -572,10 +586,36 @@ def gen_probe(pid, rng, types, forced=None):
         pr.top.append("\n".join(m))
         B.append("f := (%s).v%d" % (xs, pid)); M.append("bind:methodValue:0/%s" % pstr(p))
         B.append(mutx); M.append(mutx_m)
-        B.append("f(0)"); M.append("bind:recvValue:1/_"); M.append("dump:2"); M.append("set:2:%s:200" % pstr(q2))
-        B.append("f(1)"); M.append("bind:recvValue:1/_"); M.append("dump:3")
+        B.append("f(0)"); M.append("bind:boundCall:1/_"); M.append("dump:2"); M.append("set:2:%s:200" % pstr(q2))
+        B.append("f(1)"); M.append("bind:boundCall:1/_"); M.append("dump:3")
         pr.ndump = 2
+        pr.sigs[1] = SIG_BOUND
         pr.dump(T, xval); M.append("dump:0")
+    elif ctx == "ifaceCall":
+        m = ["type I%d interface{ w%d(base int) }" % (pid, pid), "func (y %s) w%d(base int) {" % (Ugo, pid)]
+        for k, (lp, lt) in enumerate(leaves(U)):
+            m.append("println(%d, base, %d, %s)" % (pid, k, getv(lt, "y" + sel(U, lp))))
+        m.append("y%s = %s" % (sel(U, q2), setv(l2, 200)))
+        m.append("}")
+        pr.top.append("\n".join(m))
+        if rng.random() < 0.5:
+            # a pointer in the interface: the value method is reached through the pointer
+            B.append("var i I%d = &%s" % (pid, (x + sel(T, p)) if p else xval))
+            src = "0/%s" % pstr(p)
+            B.append("i.w%d(0)" % pid); M.append("bind:ifaceCall:" + src); M.append("dump:1"); M.append("set:1:%s:200" % pstr(q2))
+            B.append("i.w%d(1)" % pid); M.append("bind:ifaceCall:" + src); M.append("dump:2")
+            pr.ndump = 2
+            pr.dump(T, xval); M.append("dump:0")
+        else:
+            B.append("y0 := %s" % xs); M.append("bind:define:0/%s" % pstr(p))
+            B.append("var i I%d = y0" % pid); M.append("bind:box:1/_")
+            B.append("i.w%d(0)" % pid); M.append("bind:ifaceCall:2/_"); M.append("dump:3"); M.append("set:3:%s:200" % pstr(q2))
+            B.append("i.w%d(1)" % pid); M.append("bind:ifaceCall:2/_"); M.append("dump:4")
+            pr.ndump = 2
+            pr.dump(U, "y0"); M.append("dump:1")
+            pr.dump(T, xval); M.append("dump:0")
+        pr.sigs[1] = SIG_IFACE
+        pr.sigs[2] = SIG_IFACE
     elif ctx in ("assign", "ptrStore"):
         B.append("var z %s" % Ugo); M.append("decl:" + token(U))
         B.append("pz := &z")
@@ -638,7 +678,7 @@ def gen_probe(pid, rng, types, forced=None):
     return pr
 
 
-CONTEXTS = ["define", "arg", "rangeValue", "rangeOperand", "send", "mapStore", "litElem", "box", "recvValue", "methodValue",
+CONTEXTS = ["define", "arg", "rangeValue", "rangeOperand", "send", "mapStore", "litElem", "box", "recvValue", "methodValue", "ifaceCall",
             "assign", "ptrStore", "elemStore", "fieldStore"]
 
 
@@ -1075,13 +1115,7 @@ def run(tier, seed):
                        "pointers ($get/$set pairs, $ptr_ caches, $indexPtr), closures and maps are not modelled in Lean: "
                        "aliasing probes compare GopherJS with native Go only",
                        "array pointers obtained from slices (subarray views sharing a buffer) are outside GV.Model.Heap"]
-    thms = list(THEOREMS)
-    heap_file = os.path.join(C.LEAN, "GV", "Props", "C07.lean")
-    body = open(heap_file).read()
-    for t in THEOREMS_HEAP:
-        if re.search(r"^theorem %s\b" % t, body, re.M):
-            thms.append(t)
-    chk.proof = C.check_proofs("C07", thms, tier)
+    chk.proof = C.check_proofs("C07", THEOREMS, tier)
     # (a) unit level
     pairs = gen_slice_ops(tier, chk.rng)
     with_spec = [(o, s) for o, s in pairs if s is not None]
